@@ -238,6 +238,16 @@ var cliFiles = map[string][]byte{
 {"id":4,"m":null,"o":{"x":[1],"y":null},"l":[],"n":null,"lo":[{"a":null}],"nf":[2,3],"ls":["d"],"no":{"x":2,"y":[]},"os":{"x":"v","y":[3,4]},"sf":[]}
 {"id":5,"m":[true],"o":{"x":["q"],"y":"c"},"l":[null,2],"n":[[true]],"lo":[{"a":[1]},{"a":["w"]}],"nf":null,"ls":["e"],"no":null,"os":{"x":"w","y":[5]},"sf":"s"}
 `),
+	// zero-sum groups: a group holding a single 0 and a group of +x/-x pairs; no value column is nullable
+	"z.json": []byte(`{"g":"a","k":0,"v":0,"w":1.5}
+{"g":"b","k":1,"v":5,"w":-1.5}
+{"g":"b","k":1,"v":-5,"w":1.5}
+{"g":"c","k":2,"v":2.5,"w":0}
+{"g":"c","k":2,"v":-1.25,"w":0}
+{"g":"c","k":2,"v":-1.25,"w":0}
+{"g":"d","k":3,"v":3,"w":4}
+`),
+	"z.csv": []byte("g,k,n,x\na,0,0,0.0\nb,1,5,2.5\nb,1,-5,-2.5\nc,2,2,0.5\nc,2,-1,0.25\nc,2,-1,-0.75\nd,3,3,1.5\n"),
 	"c.csv": []byte("cid,n,name,score\n1,10,ab,1.5\n2,,cd,\n3,7,12,2.5\n4,0,,3\n"),
 }
 
@@ -302,7 +312,7 @@ func renderItems(items []cliItem) string {
 }
 
 func buildCLIQuery(rng *rand.Rand, idx int) cliQuery {
-	shapes := []string{"project", "project", "where", "star", "join-left", "join-right", "join-outer", "join-inner", "groupby", "global-agg", "distinct", "subquery", "csv", "csv-join", "star-t2", "range", "hetero", "hetero", "hetero"}
+	shapes := []string{"project", "project", "where", "star", "join-left", "join-right", "join-outer", "join-inner", "groupby", "global-agg", "distinct", "subquery", "csv", "csv-join", "star-t2", "range", "hetero", "hetero", "hetero", "zerosum", "zerosum", "zerosum"}
 	switch shapes[idx%len(shapes)] {
 	case "project":
 		items := pickItems(rng, cliItemsA)
@@ -379,6 +389,32 @@ func buildCLIQuery(rng *rand.Rand, idx int) cliQuery {
 		kw := []string{"LEFT JOIN", "RIGHT JOIN", "OUTER JOIN"}[rng.Intn(3)]
 		items := pickItems(rng, cliItemsC[:4], cliItemsB[:9])
 		return cliQuery{sql: "SELECT " + renderItems(items) + " FROM c.csv c " + kw + " t2.json b ON float(c.cid) = b.k", items: items}
+	case "zerosum":
+		file, cols := "z.json", []string{"z.v", "z.w", "z.k"}
+		if rng.Intn(2) == 0 {
+			file, cols = "z.csv", []string{"z.n", "z.x", "z.k"}
+		}
+		aggs := []string{"sum", "sum", "sum", "avg", "min", "max", "count", "sum_distinct", "array_agg"}
+		n := 2 + rng.Intn(4)
+		parts := []string{"sum(" + cols[rng.Intn(2)] + ") AS s"}
+		for i := 0; i < n; i++ {
+			parts = append(parts, fmt.Sprintf("%s(%s) AS a%d", aggs[rng.Intn(len(aggs))], cols[rng.Intn(len(cols))], i))
+		}
+		key := []string{"z.g", "z.g", "z.k", ""}[rng.Intn(4)]
+		sql := "SELECT " + strings.Join(parts, ", ") + " FROM " + file + " z"
+		if key != "" {
+			sql = "SELECT " + key + " AS g0, " + strings.Join(parts, ", ") + " FROM " + file + " z"
+		}
+		if rng.Intn(3) == 0 || key == "" {
+			sql += " WHERE " + []string{"z.g != 'd'", "z.g = 'b'", "z.g = 'a'", "z.g != 'd' AND z.g != 'a'"}[rng.Intn(4)]
+		}
+		if key != "" {
+			sql += " GROUP BY " + key
+			if rng.Intn(4) == 0 {
+				sql += " TRIGGER COUNTING 1"
+			}
+		}
+		return cliQuery{sql: sql}
 	case "hetero":
 		hi := []string{"h.id", "h.m", "h.o", "h.l", "h.n", "h.lo", "h.m::[]", "h.m::string", "h.o::{}", "(h.o::{})->x", "(h.o::{})->y", "h.l[0]", "h.l[1]", "h.n::[]", "(h.n::[])[0]",
 			"COALESCE(h.nf, h.ls)", "COALESCE(h.nf, h.ls)", "COALESCE(h.ls, h.nf)", "COALESCE(h.no, h.os)", "COALESCE(h.os, h.no)", "COALESCE(h.sf, h.ls)", "COALESCE(h.nf, h.sf, h.ls)",
